@@ -854,3 +854,143 @@ def setop_arity():
              ("union 1 vs 1", lambda: str(q1.union(q3)), None),
              ("minus 1,1,1", lambda: str(q1.minus(q3).except_of(q1)), None)]
     return _expect(cases)
+
+
+# ---------------------------------------------------------------------------------------------- C06
+def _c06_eval(node):
+    """value of an expression tree built through the public API, with SQLite's semantics on integers
+    (raises ZeroDivisionError / returns None for NULL)"""
+    from pypika_tortoise import terms as T
+    from pypika_tortoise.enums import Arithmetic, Boolean, Equality
+    if isinstance(node, T.ValueWrapper):
+        return node.value
+    if isinstance(node, T.Negative):
+        return -_c06_eval(node.term)
+    if isinstance(node, T.Not):
+        return int(not _c06_eval(node.term))
+    if isinstance(node, T.ArithmeticExpression):
+        a, b = _c06_eval(node.left), _c06_eval(node.right)
+        op = node.operator
+        if op == Arithmetic.add:
+            return a + b
+        if op == Arithmetic.sub:
+            return a - b
+        if op == Arithmetic.mul:
+            return a * b
+        q = abs(a) // abs(b)
+        return q if (a >= 0) == (b >= 0) else -q
+    if isinstance(node, T.NestedCriterion):
+        a, b, n = _c06_eval(node.left), _c06_eval(node.right), bool(_c06_eval(node.nested))
+        c = {Equality.eq: a == b, Equality.lt: a < b}[node.comparator]
+        return int({Boolean.and_: c and n, Boolean.or_: c or n}[node.nested_comparator])
+    if isinstance(node, T.ComplexCriterion):
+        a, b = bool(_c06_eval(node.left)), bool(_c06_eval(node.right))
+        return int({Boolean.and_: a and b, Boolean.or_: a or b, Boolean.xor_: a != b}[node.comparator])
+    if isinstance(node, T.BetweenCriterion):
+        return int(_c06_eval(node.start) <= _c06_eval(node.term) <= _c06_eval(node.end))
+    if isinstance(node, T.ContainsCriterion):
+        r = _c06_eval(node.term) in [_c06_eval(v) for v in node.container.values]
+        return int(r != node._is_negated)
+    if isinstance(node, T.NullCriterion):
+        return 0
+    if isinstance(node, T.BasicCriterion):
+        a, b = _c06_eval(node.left), _c06_eval(node.right)
+        return int({Equality.eq: a == b, Equality.ne: a != b, Equality.gt: a > b, Equality.gte: a >= b,
+                    Equality.lt: a < b, Equality.lte: a <= b}[node.comparator])
+    raise TypeError(type(node).__name__)
+
+
+def _c06_pool():
+    from pypika_tortoise import terms as T
+    V = T.ValueWrapper
+    a, b, c, d = V(7), V(3), V(2), V(5)
+    return [("lit", a), ("neglit", V(-4)), ("add", a + b), ("sub", a - b), ("mul", b * c), ("div", a / c),
+            ("neg", -b), ("negsum", -(a + c)), ("eq", a == b), ("lt", b < a), ("and", (a == a) & (b == c)),
+            ("or", (a == b) | (c == c)), ("xor", T.ComplexCriterion(__import__("pypika_tortoise").enums.Boolean.xor_, a == a, b == b)),
+            ("nested-or", T.NestedCriterion(__import__("pypika_tortoise").enums.Equality.eq,
+                                            __import__("pypika_tortoise").enums.Boolean.or_, a, b, c == c)),
+            ("not", T.Not(a == b)), ("between", b.between(c, d)), ("in", b.isin([1, 3])), ("notin", b.notin([1, 3]))]
+
+
+def _c06_check(label, tree):
+    import sqlite3
+    from . import SQLLiteQuery
+    try:
+        want = _c06_eval(tree)
+    except ZeroDivisionError:
+        return None
+    sql = tree.get_sql(SQLLiteQuery.SQL_CONTEXT)
+    # SQLite has no XOR operator: evaluate it as <> on truth values, which has comparison precedence - skip those
+    if " XOR " in sql:
+        return None
+    try:
+        got = sqlite3.connect(":memory:").execute("SELECT " + sql).fetchone()[0]
+    except sqlite3.Error as e:
+        return f"{label}: {sql!r} is rejected by SQLite ({e})"
+    if got is None:
+        return None
+    if got != want:
+        return f"{label}: built value {want} but the rendering {sql!r} evaluates to {got}"
+    return None
+
+
+def grouping(cls_short, slot=None):
+    """C06: trees with one parent of the given class over the operand pool, evaluated by SQLite vs the built tree"""
+    from pypika_tortoise import terms as T
+    from pypika_tortoise.enums import Arithmetic, Boolean, Equality
+    pool = _c06_pool()
+    name = cls_short.split(".")[-1]
+    V = T.ValueWrapper
+    makers = {
+        "ArithmeticExpression": [(op.name, lambda x, y, op=op: T.ArithmeticExpression(op, x, y)) for op in Arithmetic],
+        "BasicCriterion": [(op.name, lambda x, y, op=op: T.BasicCriterion(op, x, y)) for op in (Equality.eq, Equality.lt, Equality.ne)],
+        "ComplexCriterion": [(op.name, lambda x, y, op=op: T.ComplexCriterion(op, x, y)) for op in (Boolean.and_, Boolean.or_)],
+        "Negative": [("neg", lambda x, y: T.Negative(x))],
+        "Not": [("not", lambda x, y: T.Not(x))],
+        "NullCriterion": [("isnull", lambda x, y: T.NullCriterion(x))],
+        "ContainsCriterion": [("in", lambda x, y: T.ContainsCriterion(x, T.Tuple(1, 0, 3)))],
+        "BetweenCriterion": [("between", lambda x, y: T.BetweenCriterion(V(1), x, y)), ("between-term", lambda x, y: T.BetweenCriterion(x, V(0), y))],
+    }
+    textual = {
+        "NestedCriterion": lambda x: T.NestedCriterion(Equality.eq, Boolean.and_, x, V(1), V(1) == V(1)),
+        "PeriodCriterion": lambda x: T.PeriodCriterion(V(1), x, V(2)),
+        "All": lambda x: T.All(x),
+    }
+    if name in textual:
+        # no SQLite semantics for this construct: show the operand printed bare next to the parent's operator
+        from . import SQLLiteQuery
+        for lbl, x in pool:
+            if lbl not in ("or", "eq", "not"):
+                continue
+            child = x.get_sql(SQLLiteQuery.SQL_CONTEXT)
+            sql = textual[name](x).get_sql(SQLLiteQuery.SQL_CONTEXT)
+            if child in sql and "(" + child + ")" not in sql:
+                return f"{name} over the operand {child!r} renders {sql!r}: the operand is not bracketed"
+        return None
+    if name not in makers:
+        return None
+    for mlabel, mk in makers[name]:
+        for la, x in pool:
+            for lb, y in pool:
+                try:
+                    tree = mk(x, y)
+                except Exception:
+                    continue
+                w = _c06_check(f"{name}[{mlabel}]({la}, {lb})", tree)
+                if w:
+                    return w
+    return None
+
+
+def grouping_arith(parent, child, side):
+    from pypika_tortoise import terms as T
+    from pypika_tortoise.enums import Arithmetic
+    V = T.ValueWrapper
+    for x, y, z in ((7, 3, 2), (9, 4, 5), (20, 6, 4), (5, 8, 3)):
+        inner = T.ArithmeticExpression(Arithmetic[child], V(y), V(z))
+        tree = T.ArithmeticExpression(Arithmetic[parent], inner, V(x)) if side == "left" else \
+            T.ArithmeticExpression(Arithmetic[parent], V(x), inner)
+        w = _c06_check(f"{parent}({child}) on the {side}", tree)
+        if w:
+            return w
+    return None
